@@ -549,7 +549,7 @@ def run(pid, prop, a, harnesses, scratch, logdir, seed, t0):
     # one VIOLATION line per harness family (chunks `_kNN` of one contract are one family); native replay for the first few
     fam_done, replays, budget = {}, {}, 5
     for h, det in violations:
-        fam = re.sub(r"_k\d\d$", "", h.name)
+        fam = re.sub(r"_k\d+$", "", h.name)
         if fam in fam_done:
             continue
         res = results.get(h.name)
@@ -561,7 +561,7 @@ def run(pid, prop, a, harnesses, scratch, logdir, seed, t0):
         budget -= 1
         fam_done[fam] = rp
         replays[h.name] = rp
-        also = [g.name for g, _ in violations if g is not h and re.sub(r"_k\d\d$", "", g.name) == fam]
+        also = [g.name for g, _ in violations if g is not h and re.sub(r"_k\d+$", "", g.name) == fam]
         suffix = "" if rp["confirmed"] else " no-failing-input-found"
         print(f"VIOLATION property={pid} replay={rp['path']}{suffix}" )
         if also:
